@@ -97,29 +97,30 @@ impl<'a> IntersectionParams<'a> {
         // If we got here, line segments intersect. Compute intersection point using method similar
         // to that described here: http://paulbourke.net/geometry/pointlineplane/#i2l
 
-        // The denominator/2 is to get rounding instead of truncating.
+        // Round to the nearest integer, with ties always rounded in the same direction (towards
+        // positive infinity), so that the result does not depend on the position of the lines
+        // relative to the origin.
         let offset = denominator.abs() / 2;
+        let sign = denominator.signum();
+        let denominator = denominator.abs();
 
         let origin_distances = Point::new(line1.origin_distance, line2.origin_distance);
 
-        let numerator =
-            origin_distances.determinant(Point::new(line1.normal_vector.y, line2.normal_vector.y));
-        let x_numerator = if numerator < 0 {
-            numerator - offset
-        } else {
-            numerator + offset
-        };
+        let x_numerator = origin_distances
+            .determinant(Point::new(line1.normal_vector.y, line2.normal_vector.y))
+            * sign
+            + offset;
 
-        let numerator =
-            Point::new(line1.normal_vector.x, line2.normal_vector.x).determinant(origin_distances);
-        let y_numerator = if numerator < 0 {
-            numerator - offset
-        } else {
-            numerator + offset
-        };
+        let y_numerator = Point::new(line1.normal_vector.x, line2.normal_vector.x)
+            .determinant(origin_distances)
+            * sign
+            + offset;
 
         Intersection::Point {
-            point: Point::new(x_numerator, y_numerator) / denominator,
+            point: Point::new(
+                x_numerator.div_euclid(denominator),
+                y_numerator.div_euclid(denominator),
+            ),
             outer_side,
         }
     }
